@@ -173,6 +173,9 @@ def r56(F):
                         or any(l[0] == "cast" and len(l) > 2 and str(l[2]).startswith("f") for l in labs)
                     ints.append((f2, b2, via_float))
         if not ints:
+            # `as_i64().map_or_else(|| Val::Float(..), Val::Int)`: the constructor is handed to a combinator as a function item
+            ctor = [1 for f2 in fns + F.closures_of(fname) for b2, t2 in f2.calls() for a2 in t2["args"] if str(a2.get("fn", "")).endswith("Val::Int")]
+            need(not ctor, "%s: Val::Int is applied through a combinator (map_or_else / map): which view feeds it is not read by this rule" % fname)
             r.inst("%s:int-before-float" % conv, fn.where(), False, "the %s importer never builds a Val::Int: integers are imported as floats" % conv)
             continue
         bad = [(f2, b2) for f2, b2, vf in ints if vf]
@@ -240,14 +243,28 @@ def r87(F):
     fn = F.fn("ucglib::convert::ImporterRegistry::make_registry")
     o = Origins(fn)
     reg = {}
+    def entry(labs):
+        tys = sorted(l[2] for l in labs if l[0] == "cast" and "Box<" in l[2] and "dyn" not in l[2])
+        ty = tys[0].replace("alloc::boxed::Box<", "").rstrip(">") if len(tys) == 1 else "?"
+        flags = sorted(l[2] for l in labs if l[0] == "const" and l[1] == "int")
+        return (ty, flags)
+    dynamic = False
     for b, t in fn.calls():
         if callee(t) == "ucglib::convert::ImporterRegistry::register":
             nm = t["args"][1].get("str")
-            labs = o.at(t["args"][2], b)
-            tys = sorted(l[2] for l in labs if l[0] == "cast" and "Box<" in l[2] and "dyn" not in l[2])
-            ty = tys[0].replace("alloc::boxed::Box<", "").rstrip(">") if tys else "?"
-            flags = sorted(l[2] for l in labs if l[0] == "const" and l[1] == "int")
-            reg[nm] = (ty, flags)
+            if nm is None:
+                dynamic = True          # registered from a table of (name, importer) pairs
+                continue
+            reg[nm] = entry(o.at(t["args"][2], b))
+    if dynamic:
+        for b, j, pl, rv, m in fn.assigns():
+            if rv["k"] == "agg" and rv.get("adt") == "(tuple)" and len(rv["ops"]) == 2:
+                strs = [rv["ops"][0]["str"]] if rv["ops"][0].get("str") is not None else \
+                    sorted(l[2] for l in o.at(rv["ops"][0], b) if l[0] == "const" and l[1] == "str")
+                e = entry(o.at(rv["ops"][1], b))
+                if len(strs) == 1 and e[0] != "?":
+                    reg[strs[0]] = e
+        need(reg, "ImporterRegistry::make_registry registers from a table this rule cannot read")
     expect = {"b64": ("ucglib::convert::b64::Base64Importer", ["0"]), "b64urlsafe": ("ucglib::convert::b64::Base64Importer", ["1"]),
               "json": ("ucglib::convert::json::JsonConverter", []), "yaml": ("ucglib::convert::yaml::YamlConverter", []),
               "toml": ("ucglib::convert::toml::TomlConverter", [])}
@@ -279,6 +296,33 @@ def r87(F):
             engines = sorted(x[2].split("::")[-1] for x in l0 if x[0] == "const" and "general_purpose" in str(x[2]) and "promoted" not in str(x[2]))
             ok = engines == [want] and ("param", 2) in l1 and not calls_in(l1)
             detail = {"engine": engines, "input": sorted(map(str, l1))}
+        elif not enc:
+            # the edge only selects the engine (a reference to the constant); one encode after the join uses it
+            shared = [(b, t) for b, t in bf.calls() if callee(t).endswith("Engine::encode") and stop is not None and b in cfg.reachable(bf, stop)]
+            picked = set()
+            for b2 in regn:
+                for st2 in bf.blocks[b2]["stmts"]:
+                    if st2[0] == "assign":
+                        for op2 in st2[2].get("ops", []) or []:
+                            c2 = str(op2.get("const", ""))
+                            if "general_purpose" in c2 and "promoted" not in c2:
+                                picked.add(c2.split("::")[-1])
+                        if st2[2]["k"] == "ref":
+                            pass
+            # constants reach the engine local through a reference to a static: read them from the labels restricted to this edge
+            if len(shared) == 1:
+                b, t = shared[0]
+                l0 = set()
+                for b2 in regn:
+                    for st2 in bf.blocks[b2]["stmts"]:
+                        if st2[0] == "assign":
+                            l0 |= {x for x in ob.at(st2[1], b2) if x[0] == "const" and "general_purpose" in str(x[2]) and "promoted" not in str(x[2])}
+                engines = sorted({x[2].split("::")[-1] for x in l0} | picked)
+                l1 = ob.at(t["args"][1], b)
+                allsel = sorted(x[2].split("::")[-1] for x in ob.at(t["args"][0], b) if x[0] == "const" and "general_purpose" in str(x[2]) and "promoted" not in str(x[2]))
+                need(engines, "Base64Importer::import: the engine selected on edge %s was not identified" % name)
+                ok = engines == [want] and want in allsel and ("param", 2) in l1 and not calls_in(l1)
+                detail = {"engine": engines, "input": sorted(map(str, l1))}
         r.inst("b64:%s" % name, bf.where(edge), ok,
                "%s.encode(bytes) on the unmodified input" % want if ok else "edge %s does not encode the raw input with %s" % (name, want), detail)
     return r
